@@ -1734,6 +1734,11 @@ impl<'c, W: WorldDriver> Session<'c, W> {
             if l1 != l2 || (c1 != c2 && into.is_none()) || c2 < l2 {
                 return Err(self.fail(&["C13"], "clone-len-capacity", format!("clone of {} has len {} capacity {}, original has len {} capacity {}", self.infos[a].name, l2, c2, l1, c1)));
             }
+            if into.is_some() {
+                // soundness decision 17: an in-place clone_from may keep the destination's larger
+                // allocation; from here on the capacity laws are judged from what it reports now
+                self.sims[ni].archs[a].last_cap = c2;
+            }
         }
         for a in 0..self.infos.len() {
             let (d1, d2) = (W::dump(&self.sims[si].w, a), W::dump(&self.sims[ni].w, a));
